@@ -34,7 +34,7 @@ var Families = []string{
 	"json", "json_trunc", "json_bad", "geojson", "har", "gltf", "json_deep", "json_nest", "json_wide",
 	"ndjson", "ndjson_bad", "csv", "csv_ragged", "csv_big", "tsv",
 	"png", "gif", "pdf", "zip", "docx", "ole", "elf", "gzip", "random", "empty",
-	"shebang", "svg", "rtf", "srt", "vcard", "bom8", "utf8", "tar", "sample", "corpus",
+	"shebang", "svg", "rtf", "srt", "vcard", "bom8", "utf8", "tar", "sample", "corpus", "poison",
 }
 
 // SampleDir is the directory of real sample files (the repository's testdata);
@@ -131,6 +131,14 @@ func corpus(i int) []byte {
 		return sample(i)
 	}
 	return corpusData[i%len(corpusData)]
+}
+
+// PoisonPrefix is the prefix of the poison inputs of variant v.
+func PoisonPrefix(v int) string {
+	if v%2 == 0 {
+		return "\x7fVERIF-POISON\x00"
+	}
+	return "VERIF-POISON "
 }
 
 // tarHeader builds one valid ustar header block (checksum included) followed by n content bytes.
@@ -454,6 +462,9 @@ func (in Input) base() []byte {
 			b = append(b, make([]byte, clamp(n, 0, 1<<16))...)
 		}
 		return b
+	case "poison":
+		// inputs that make a trap detector (model.Pred.PanicPrefix) panic: v even binary, v odd textual
+		return append([]byte(PoisonPrefix(v)), textN(clamp(n, 0, 1<<12), in.Seed)...)
 	case "utf8":
 		// valid UTF-8 text dense in 2-, 3- and 4-byte sequences, so that a cut at
 		// almost any limit falls inside a rune; V selects the mix, P shifts the phase
